@@ -131,12 +131,16 @@ func VerifIncremental(args []string) {
 		vReach("script split")
 	}
 	o1, g1, e1 := verifFeed([]string{whole}, a, b)
-	if e1 > 0 {
+	o2, g2, e2 := verifFeed(chunks, a, b)
+	if e1 > 0 && e2 > 0 {
 		vReach("script not error-free for these values (outside the property)")
 		return
 	}
-	o2, g2, e2 := verifFeed(chunks, a, b)
+	vAssert(e1 == 0, "incremental/error-only-in-one-go")
 	vAssert(e2 == 0, "incremental/error-only-when-split")
+	if e1 > 0 || e2 > 0 {
+		return
+	}
 	vAssert(o1 == o2, "incremental/printed-output-differs")
 	vAssert(g1 == g2, "incremental/final-globals-differ")
 }
